@@ -64,6 +64,8 @@ type Bounds struct {
 	CompoundSub bool `json:",omitempty"`
 	// DupSubs: the first plan is also computed with subscriptions that name a topic twice (all members / the first one)
 	DupSubs bool `json:",omitempty"`
+	// ClaimEach: a joiner with stale user data may also claim any single partition of its first topic (not only partition 0)
+	ClaimEach bool `json:",omitempty"`
 }
 
 // ---------------------------------------------------------------------------------------------
@@ -349,6 +351,13 @@ func Events(s *State, b Bounds, pool []string) []Event {
 					for _, cl := range []string{"all", "dirty", "one"} {
 						evs = append(evs, Event{Kind: "join", Member: id, Subs: ss, Stale: st, Claim: cl})
 					}
+					if b.ClaimEach {
+						// ... or exactly one partition of its first topic, whichever ("one" is partition 0)
+						n, _ := s.topicN(ss[0])
+						for k := 1; k < n; k++ {
+							evs = append(evs, Event{Kind: "join", Member: id, Subs: ss, Stale: st, Claim: "p" + strconv.Itoa(k)})
+						}
+					}
 				}
 			}
 		}
@@ -533,6 +542,10 @@ func mutate(in *Input, s *State, e Event) bool {
 				d.Gen = s.Gen
 			case "v0":
 				d.V0 = true
+			}
+			if strings.HasPrefix(e.Claim, "p") {
+				k, _ := strconv.Atoi(e.Claim[1:])
+				d.Topics[e.Subs[0]] = []int32{int32(k)}
 			}
 			switch e.Claim {
 			case "one":
